@@ -54,6 +54,21 @@ def run(ctx) -> None:
     ctx.section("groups", _groups, ctx)
     ctx.section("sanitiser", _sanitiser_stateless, ctx)
     ctx.section("selections", _selections, ctx)
+    # aggregate / window outputs are named <sanitised column>_<function>: the sanitiser's own stages (shared with C17.a) belong to
+    # this clause - a keyword or reserved test applied to the wrong text changes 'Class #' -> class_sum instead of class__sum
+    from . import c17 as _c17
+
+    class _As:
+        def __init__(self, rule):
+            self._rule = rule
+            self.prog = ctx.prog
+
+        def ob(self, rule, func, role, ok, what, node=None, message="", witness=""):
+            return ctx.ob(self._rule, func, "sanitiser:" + str(role), ok, what, node, message, witness)
+
+        def info(self, msg):
+            pass
+    ctx.section("sanitiser-stages", _c17._sanitiser, _As("g.aggregate-window"))
     ctx.not_decided.append("the concrete suffix numbers chosen by uniquify")
 
 
